@@ -427,10 +427,16 @@ where
             }
             Ok(Poll::Ready(Some(Ok(frame)))) => match frame.into_data() {
                 Ok(mut d) => {
-                    let n = d.remaining();
-                    let mut v = vec![0u8; n];
-                    d.copy_to_slice(&mut v);
-                    all.extend_from_slice(&v);
+                    let mut n = d.remaining();
+                    if n > 1 << 26 {
+                        // a frame that claims more than could be held (virtual Buf passed through):
+                        // its length is recorded (capped for TLC's integers), its bytes are not copied
+                        n = n.min(1 << 30);
+                    } else {
+                        let mut v = vec![0u8; n];
+                        d.copy_to_slice(&mut v);
+                        all.extend_from_slice(&v);
+                    }
                     ev["res"] = json!("data");
                     ev["n"] = json!(n);
                     out.emit(ev);
